@@ -298,6 +298,212 @@ def job_sweep(j):
     return {'sweep': out, 'cart_nan': [bool(b) for b in flags]}
 
 
+# ---------------------------------------------------------------- wave 3: storage types, caller-owned data, histories
+
+def snap_arr(a):
+    a = np.asarray(a)
+    return (a.dtype.str, a.shape, a.strides if a.ndim else (), a.tobytes())
+
+
+def snap_poly(p):
+    if isinstance(p, mng.ManglePolygon):
+        return ('MP', p.ncaps, int(p.use_caps), p.id, p.pixel, p.weight,
+                None if p.x is None else snap_arr(p.x), None if p.cm is None else snap_arr(p.cm))
+    return ('other',)
+
+
+def guarded(fn, arrays, polys=(), may_change_use_caps=False):
+    """Run fn(); report caller-owned arrays / polygon objects that are not bit-identical afterwards and results
+    that share memory with an input.  -> (result or exception dict, list of problems)"""
+    before_a = {k: snap_arr(v) for k, v in arrays.items() if isinstance(v, np.ndarray)}
+    before_p = [snap_poly(q) for q in polys]
+    try:
+        res = fn()
+    except Exception as e:  # noqa: BLE001
+        return err(e), []
+    problems = []
+    for k, v in arrays.items():
+        if isinstance(v, np.ndarray) and snap_arr(v) != before_a[k]:
+            problems.append('input array %s modified' % k)
+    for i, q in enumerate(polys):
+        a, b = before_p[i], snap_poly(q)
+        if may_change_use_caps and a[0] == 'MP':
+            a, b = a[:2] + a[3:], b[:2] + b[3:]
+        if a != b:
+            problems.append('polygon object %d modified' % i)
+    outs = res if isinstance(res, tuple) else (res,)
+    for o in outs:
+        if isinstance(o, np.ndarray):
+            for k, v in arrays.items():
+                if isinstance(v, np.ndarray) and np.shares_memory(o, v):
+                    problems.append('result shares memory with input %s' % k)
+            for i, q in enumerate(polys):
+                if isinstance(q, mng.ManglePolygon) and q.x is not None and (np.shares_memory(o, q.x) or np.shares_memory(o, q.cm)):
+                    problems.append('result shares memory with polygon %d' % i)
+    return res, problems
+
+
+def store(a, how):
+    """The same numbers in another storage: f8 (C-contiguous float64), f4, be ('>f8'), nc (non-contiguous view),
+    fo (Fortran order), i8 (integers; only for integral values)."""
+    a = np.array(a, dtype=np.float64)
+    if how == 'f8':
+        return a
+    if how == 'f4':
+        return a.astype(np.float32)
+    if how == 'be':
+        return a.astype('>f8')
+    if how == 'i8':
+        assert (a == np.round(a)).all()
+        return a.astype(np.int64)
+    if how == 'fo':
+        return np.asfortranarray(a)
+    if how == 'nc':
+        if a.ndim == 1:
+            w = np.full((a.shape[0] * 2 + 1,), 7.25)
+            w[1::2] = a
+            return w[1::2]
+        w = np.full((a.shape[0] * 2, a.shape[1] + 2), -3.5)
+        w[::2, 1:-1] = a
+        return w[::2, 1:-1]
+    raise ValueError(how)
+
+
+def blist(r):
+    return r if isinstance(r, dict) else [bool(v) for v in r]
+
+
+def job_types(j):
+    """is_in_cap / is_in_polygon / is_in_window for the same numbers held in different storage types."""
+    out = {'variants': {}}
+    rd64 = np.array(j['radec'], dtype=np.float64).reshape(-1, 2)
+    out['radec_xyz'] = rows3(mng.angles_to_x(rd64, latitude=True))
+    ncaps = int(j['ncaps'])
+    for name, (hx, hcm, hp) in j['variants'].items():
+        v = {'problems': []}
+        try:
+            x = store(np.array(j['x']).reshape(-1, 3), hx)
+            cm = store(j['cm'], hcm)
+            pts = {'cart': store(np.array(j['cart']).reshape(-1, 3), hp), 'radec': store(rd64, hp)}
+            poly = mng.ManglePolygon(x=x, cm=cm, use_caps=j['use_caps'])
+            for form in ('cart', 'radec'):
+                P = pts[form]
+                cm0 = cm[0]
+                if j.get('cm_form') == 'pyfloat':
+                    cm0 = float(cm0)
+                elif j.get('cm_form') == 'zero_d':
+                    cm0 = np.array(cm0)
+                elif j.get('cm_form') == 'one_elem':
+                    cm0 = cm[0:1]
+                arrs = {'x': x, 'cm': cm, 'points': P}
+                r, pr = guarded(lambda: mng.is_in_cap(x[0], cm0, P), arrs)
+                v['cap_' + form] = blist(r)
+                v['problems'] += ['is_in_cap(%s): %s' % (form, q) for q in pr]
+                r, pr = guarded(lambda: mng.is_in_polygon(poly, P, ncaps=ncaps), arrs, [poly])
+                v['poly_' + form] = blist(r)
+                v['problems'] += ['is_in_polygon(%s): %s' % (form, q) for q in pr]
+                r, pr = guarded(lambda: mng.is_in_window(mng.PolygonList([poly]), P, ncaps=ncaps), arrs, [poly])
+                v['win_' + form] = r if isinstance(r, dict) else [int(i) for i in r[1]]
+                v['problems'] += ['is_in_window(%s): %s' % (form, q) for q in pr]
+        except Exception as e:  # noqa: BLE001
+            v = err(e)
+        out['variants'][name] = v
+    return out
+
+
+def job_history(j):
+    """A sequence of calls in ONE process on the same polygon objects / file paths; every call reports the state it
+    started from, so that the harness can compare it with the model's pure answer."""
+    caller = []      # caller-owned arrays handed to the constructors
+    polys = mng.PolygonList()
+    for p in j['polys']:
+        x = np.array(p['x'], dtype=np.float64).reshape(-1, 3)
+        cm = np.array(p['cm'], dtype=np.float64)
+        caller.append((x, cm))
+        polys.append(mng.ManglePolygon(x=x, cm=cm, use_caps=p['use_caps'], id=p['id'], pixel=p['pixel'],
+                                       weight=p['weight'], str=p['str']))
+    pts = np.array(j['pts'], dtype=np.float64).reshape(-1, 3)
+    d = tempfile.mkdtemp(prefix='c12h-')
+    slots = {}
+    out = []
+    try:
+        for op in j['ops']:
+            rec = {'pre': [int(q.use_caps) for q in polys]}
+            try:
+                kind = op['op']
+                if kind == 'inpoly':
+                    q = polys[op['k']]
+                    r, pr = guarded(lambda: mng.is_in_polygon(q, pts, ncaps=op.get('ncaps', 0)), {'points': pts}, list(polys))
+                    rec['res'] = blist(r)
+                elif kind == 'window':
+                    r, pr = guarded(lambda: mng.is_in_window(polys, pts, ncaps=op.get('ncaps', 0)), {'points': pts}, list(polys))
+                    rec['res'] = r if isinstance(r, dict) else [int(i) for i in r[1]]
+                elif kind == 'setuse':
+                    q = polys[op['k']]
+                    il = op['il']
+                    if op.get('as_array'):
+                        il = np.array(il, dtype=np.int64)
+                    arrs = {'index_list': il} if isinstance(il, np.ndarray) else {}
+                    r, pr = guarded(lambda: mng.set_use_caps(q, il, **op.get('opts', {})), arrs, list(polys),
+                                    may_change_use_caps=True)
+                    rec['res'] = r if isinstance(r, dict) else int(r)
+                    if isinstance(il, list) and il != op['il']:
+                        pr = pr + ['index list modified']
+                elif kind == 'mutate_caller':
+                    # the arrays given to the constructor belong to the caller: changing them must not change the polygon
+                    for x, cm in caller:
+                        x += 0.25
+                        cm *= -1.0
+                    rec['res'] = None
+                    pr = []
+                elif kind == 'copy':
+                    q = polys[op['k']]
+                    c, pr = guarded(lambda: q.copy(), {}, [q])
+                    if not isinstance(c, dict):
+                        same = (c.ncaps == q.ncaps and int(c.use_caps) == int(q.use_caps) and (c.x == q.x).all() and (c.cm == q.cm).all())
+                        alias = np.shares_memory(c.x, q.x) or np.shares_memory(c.cm, q.cm)
+                        rec['res'] = bool(same)
+                        if alias:
+                            pr = pr + ['copy shares memory with the original']
+                    else:
+                        rec['res'] = c
+                elif kind == 'write':
+                    path = os.path.join(d, op['file'])
+                    if os.path.exists(path):
+                        os.remove(path)
+                    if op['file'].endswith('.ply'):
+                        write_ply(path, op['content'], op.get('fmt', 'repr'))
+                    else:
+                        write_fits(path, op['content'], j['pad'], 'array')
+                    rec['res'] = None
+                    pr = []
+                elif kind == 'read':
+                    path = os.path.join(d, op['file'])
+                    if op['file'].endswith('.ply'):
+                        slots[op['slot']] = mng.read_mangle_polygons(path)
+                    else:
+                        slots[op['slot']] = mng.read_fits_polygons(path, convert=bool(op.get('convert')))
+                    rec['res'] = describe(slots[op['slot']])
+                    pr = []
+                elif kind == 'window_slot':
+                    got = slots[op['slot']]
+                    r, pr = guarded(lambda: mng.is_in_window(got, pts, ncaps=op.get('ncaps', 0)), {'points': pts},
+                                    [q for q in got if isinstance(q, mng.ManglePolygon)])
+                    rec['res'] = r if isinstance(r, dict) else [int(i) for i in r[1]]
+                else:
+                    raise ValueError('unknown op ' + kind)
+                rec['problems'] = pr
+            except Exception as e:  # noqa: BLE001
+                rec['res'] = err(e)
+                rec['problems'] = []
+            rec['post'] = [int(q.use_caps) for q in polys]
+            out.append(rec)
+    finally:
+        shutil.rmtree(d, ignore_errors=True)
+    return {'history': out}
+
+
+
 def job_setuse(j):
     p = j['poly']
     poly = mng.ManglePolygon(x=np.array(p['x'], dtype=np.float64).reshape(-1, 3),
@@ -328,6 +534,10 @@ def main():
                 res.append(job_setuse(j))
             elif j['f'] == 'sweep':
                 res.append(job_sweep(j))
+            elif j['f'] == 'types':
+                res.append(job_types(j))
+            elif j['f'] == 'history':
+                res.append(job_history(j))
             else:
                 res.append({'err': 'BadJob'})
         except Exception as e:  # noqa: BLE001
